@@ -21,7 +21,8 @@ Inductive c18_case :=
 | ClassCase (status : Z) (obs_state : Z)            (* Response.ResultState() with the default checker *)
 | ProgCase (p : program) (obs : observation)
 | EntryCase (name : bytes) (pkg : bool) (p : program) (obs : observation)
-| CloneCase (ops : list cop) (obs : list (list nat * list nat)).   (* per client: ids of the response / request middleware one request ran *)   (* called through the named function of the generated table *)
+| CloneCase (ops : list cop) (obs : list (list nat * list nat * list nat * nat)).
+    (* per client, from one request: ids of the response middleware, request middleware, wrappers (as entered) it ran; type of ErrorResult() *)   (* called through the named function of the generated table *)
 
 Definition opt_z_eqb (a b : option Z) : bool :=
   match a, b with
@@ -81,7 +82,11 @@ Definition c18_check (c : c18_case) : bool :=
   | ClassCase s st => default_result_state s =? st
   | ProgCase p o => prog_check p o
   | CloneCase ops obs =>
-      list_eqb (fun a b => list_eqb Nat.eqb (fst a) (fst b) && list_eqb Nat.eqb (snd a) (snd b)) (run_ops ops) obs
+      list_eqb (fun a b =>
+        match a, b with
+        | (r1, q1, w1, t1), (r2, q2, w2, t2) =>
+          list_eqb Nat.eqb r1 r2 && list_eqb Nat.eqb q1 q2 && list_eqb Nat.eqb w1 w2 && Nat.eqb t1 t2
+        end) (map observed (run_ops ops)) obs
   | EntryCase name pkg p o =>
       match kind_of entry_table name pkg with
       | Some k => prog_check (mkProg k (p_cfg p) (p_attempts p)) o
